@@ -28,7 +28,7 @@ PROP = "C15"
 THEOREMS = ["C15_deprecated_filter", "C15_order", "C15_sorted", "C15_exact_partial",
             "C15_defaults_refuted", "C15_typename", "C15_disabled"]
 AXIOMS_OK = []
-RUN_MODULE = "Run.C15run Schema.IntrospectModel"
+RUN_MODULE = "Run.C15run Schema.IntrospectModel Spec.IntrospectSpec"
 AGREE = "agree_C15"
 CASE_TYPE = "case_C15"
 SHARD = 6
@@ -188,7 +188,7 @@ def _wrapper_sweep(maxd):
 
 def generate(rng, tier):
     import random
-    n = 20 if tier == "quick" else 200
+    n = 20 if tier == "quick" else 150
     cases = [_wrapper_sweep(4 if tier == "quick" else 6)]
     for i in range(n):
         desc = G.gen_desc(rng, big=(tier != "quick" and i % 5 == 0))
@@ -355,6 +355,74 @@ def _reparse(schema, intro_data):
     return out
 
 
+def _lit_json(node):
+    from py_gql.lang import ast as A
+    if isinstance(node, A.NullValue):
+        return ["N"]
+    if isinstance(node, A.BooleanValue):
+        return ["B", bool(node.value)]
+    if isinstance(node, A.IntValue):
+        return ["I", int(node.value)]
+    if isinstance(node, A.FloatValue):
+        return ["F", node.value]
+    if isinstance(node, A.StringValue):
+        return ["S", node.value]
+    if isinstance(node, A.EnumValue):
+        return ["E", node.value]
+    if isinstance(node, A.ListValue):
+        return ["L", [_lit_json(x) for x in node.values]]
+    if isinstance(node, A.ObjectValue):
+        return ["O", [[f.name.value, _lit_json(f.value)] for f in node.fields]]
+    raise TypeError(repr(node))
+
+
+def _clit(j):
+    k = j[0]
+    if k == "N":
+        return "LNull"
+    if k == "B":
+        return "(LBool %s)" % ser.cbool(j[1])
+    if k == "I":
+        return "(LInt %s)" % ser.cz(j[1])
+    if k in ("F", "S", "E"):
+        return "(%s %s)" % ({"F": "LFloat", "S": "LStr", "E": "LEnum"}[k], ser.cstr(j[1]))
+    if k == "L":
+        return "(LList %s)" % ser.clist(j[1], _clit)
+    return "(LObj %s)" % ser.clist(j[1], lambda kv: "(%s, %s)" % (ser.cstr(kv[0]), _clit(kv[1])))
+
+
+def _default_texts(data):
+    out = []
+
+    def walk(v):
+        if isinstance(v, dict):
+            for k, x in v.items():
+                if k == "defaultValue" and isinstance(x, str) and x not in out:
+                    out.append(x)
+                else:
+                    walk(x)
+        elif isinstance(v, list):
+            for x in v:
+                walk(x)
+    walk(data)
+    return out
+
+
+def _parses(data):
+    """[text, literal or None] for every distinct reported defaultValue"""
+    from py_gql.exc import GraphQLSyntaxError
+    out = []
+    for text in _default_texts(data):
+        try:
+            node = parse_value(text)
+            if getattr(node, "block", False):
+                continue        # block strings are not read by the Spec's reader
+            out.append([text, _lit_json(node)])
+        except GraphQLSyntaxError:
+            out.append([text, None])
+    return out
+
+
 def run_impl(case):
     schema = G.build(case)
     dump = G.dump_schema(schema)
@@ -368,10 +436,11 @@ def run_impl(case):
         for (name, _e, _r), r in zip(CONFIGS[1:], per[1:]):
             if json.dumps(r, default=str) != json.dumps(per[0], default=str):
                 diffs.append({"op": i, "config": name, "result": json.loads(json.dumps(r, default=str))})
-    obs = {"dump": dump, "results": results, "runtime_diffs": diffs, "reparse": []}
+    obs = {"dump": dump, "results": results, "runtime_diffs": diffs, "reparse": [], "parses": []}
     first = results[0] if case["ops"] and case["ops"][0] == {"op": "intro", "incl": True, "desc": True} else None
     if first is not None and "data" in first and "errors" not in first:
         obs["reparse"] = _reparse(schema, first["data"])
+        obs["parses"] = _parses(first["data"])
     return obs
 
 
@@ -396,8 +465,9 @@ def _obs_term(op, r):
 
 
 def to_coq(case, obs):
-    return "(%s, %s)" % (G.cschema(obs["dump"]),
-                         ser.clist(list(zip(case["ops"], obs["results"])), lambda p: _obs_term(*p)))
+    terms = [_obs_term(op, r) for op, r in zip(case["ops"], obs["results"])]
+    terms += ["(OParse %s %s)" % (ser.cstr(text), ser.copt(j, _clit)) for text, j in obs.get("parses", [])]
+    return "(%s, %s)" % (G.cschema(obs["dump"]), ser.clist(terms, lambda x: x))
 
 
 def show_expr(case, obs):
@@ -540,6 +610,8 @@ def extra_evidence(cases, obss):
         "build_modes": modes, "operations": ops, "user_type_kinds": kinds, "defaults_by_class": defaults,
         "deprecated": deprecated, "type_refs_deeper_than_7": deep,
         "reparse_failures_by_finding": _count([r["finding"] for o in obss for r in o["reparse"]]),
+        "default_texts_parsed_by_both_readers": sum(len(o.get("parses", [])) for o in obss),
+        "default_texts_rejected_by_parse_value": sum(1 for o in obss for p in o.get("parses", []) if p[1] is None),
         "runtime_configs": [c[0] for c in CONFIGS],
     }}
 
